@@ -330,10 +330,10 @@ class Sample:
         ) = pickle.load(
             fd
         )  # type: ignore
-        self.profile.display_format = False
-        self.profile.debug_probe = ""
-        self.profile.debug_novel = False
-        # (archives written before this parameter existed lack it; otherwise the value of the run is kept)
+        # (archives written before these parameters existed lack them; otherwise the values of the run are kept)
+        self.profile.display_format = getattr(self.profile, "display_format", False)
+        self.profile.debug_probe = getattr(self.profile, "debug_probe", "")
+        self.profile.debug_novel = getattr(self.profile, "debug_novel", False)
         self.profile.min_avg_coverage = getattr(self.profile, "min_avg_coverage", 2.0)
         self.phases = {f"r{i}": v for i, v in enumerate(phases)}
         norm = {p: [q for q, n in c.items() for _ in range(n)] for p, c in norm.items()}
